@@ -621,3 +621,4 @@ RULES = [
 
 from . import common as _common_purity
 RULES = RULES + _common_purity.purity_rules("C07")
+RULES = RULES + _common_purity.bundle_rules("C07")
